@@ -213,6 +213,7 @@ class C23(Property):
     drivers = ["Drivers/C23.lean"]
     translators = []
     quick_budget_s = 900
+    thorough_budget_s = 3000
     rule = ("(1) stream ops: random read/seek sequences on the real SeekableStreamReaderWrapper over a chunking fake stream (policies: at most "
             "k bytes per raw read, k in 1..65536; pseudo-random sizes depending on request and remaining) vs the Lean reader; (2) archives of "
             "random trees written by GNU tar (gnu/ustar/posix), Python tarfile (GNU/USTAR/PAX) and the async writer, read by the real "
